@@ -19,6 +19,20 @@ MODULES = {
         dict(py='rol', coq='rol', args=[('val', INT), ('r_bits', INT), ('max_bits', INT)], ret=INT),
         dict(py='CryptoEngine.keygen_manual', coq='keygen_manual', args=[('key_x', INT), ('key_y', INT)], ret=SEQ),
         dict(py='CryptoEngine.keygen_twl_manual', coq='keygen_twl_manual', args=[('key_x', INT), ('key_y', INT)], ret=SEQ),
+        # arithmetic leaves of the CTR file wrappers (the I/O around them is hand-modelled in Model/CtrIO.v)
+        dict(py='CTRFileIO.read', coq='ctr_read_counter', expr_of='counter', args=[('cur_offset', INT)], selfattrs={'_counter': INT}, ret=INT),
+        dict(py='CTRFileIO.write', coq='ctr_write_counter', expr_of='counter', args=[('cur_offset', INT)], selfattrs={'_counter': INT}, ret=INT),
+        dict(py='CTRFileIO.read', coq='ctr_read_discard', arg_of='decrypt', args=[('cur_offset', INT)], ret=SEQ),
+        dict(py='CTRFileIO.write', coq='ctr_write_discard', arg_of='encrypt', args=[('cur_offset', INT)], ret=SEQ),
+        dict(py='TWLCTRFileIO.read', coq='twl_read_counter', expr_of='counter', args=[('cur_offset', INT)], selfattrs={'_counter': INT}, ret=INT),
+        dict(py='TWLCTRFileIO.read', coq='twl_read_pad_before', expr_of='padding_before', args=[('cur_offset', INT)], ret=INT),
+        dict(py='TWLCTRFileIO.read', coq='twl_read_pad_after', expr_of='padding_after', args=[('padding_before', INT), ('data', SEQ)], ret=INT),
+        dict(py='TWLCTRFileIO.write', coq='twl_write_counter', expr_of='counter', args=[('cur_offset', INT)], selfattrs={'_counter': INT}, ret=INT),
+        dict(py='TWLCTRFileIO.write', coq='twl_write_pad_before', expr_of='padding_before', args=[('cur_offset', INT)], ret=INT),
+        dict(py='TWLCTRFileIO.write', coq='twl_write_pad_after', expr_of='padding_after', args=[('padding_before', INT), ('data', SEQ)], ret=INT),
+        dict(py='CryptoEngine.create_ctr_io', coq='create_ctr_io_is_twl', if_test=0, args=[('keyslot', INT)], ret=BOOL),
+        dict(py='CryptoEngine.create_ctr_cipher', coq='create_ctr_cipher_is_twl', if_test=0, args=[('keyslot', INT)], ret=BOOL),
+        dict(py='CBCFileIO.read', coq='cbc_before', expr_of='before', args=[('offset', INT)], ret=INT),
     ]),
     'fileio': dict(file='pyctr/fileio.py', kernels=[
         dict(py='SubsectionIO.seek', coq='SubsectionIO_seek', args=[('seek', INT), ('whence', INT)], ret=INT,
